@@ -130,8 +130,8 @@ class LogitLink(Link):
         -------
         mu : np.array of length n
         """
-        elp = np.exp(lp)
-        return dist.levels * elp / (elp + 1)
+        # levels * exp(lp) / (exp(lp) + 1) without inf / inf for large lp
+        return dist.levels / (1 + np.exp(-lp))
 
     def gradient(self, mu, dist):
         """
